@@ -246,15 +246,51 @@ def r4_fno_structure(repo: Repo, rep):
         rep.check(R, dump(p.ret) == want, fi.site(p.ret_node), fi.fq, "down(fourier_blocks(up(points)))", dump(p.ret)[:160], dump(p.ret)[:160])
     init = ci.methods.get("__init__")
     rep.saw(init)
-    src = ast.unparse(init.node).replace(" ", "")
-    rep.check(R, "self.channel_up_sampling=nn.Linear(in_channels,hidden_channels,bias=True)" in src and "self.channel_down_sampling=nn.Linear(hidden_channels,out_channels,bias=True)" in src,
-              init.site(), init.fq, "default channel maps are nn.Linear(in, hidden) / nn.Linear(hidden, out)", "defaults changed", "channel map defaults")
-    rep.check(R, "self.fourier_sequential=nn.Sequential(*layers)" in src and "layers.append(new_layer)" in src and "_FourierLayer(hidden_channels," in src, init.site(), init.fq,
-              "the blocks are _FourierLayer(hidden_channels, ...) in an nn.Sequential", "construction changed", "blocks")
+    hid = "hidden_channels" if "hidden_channels" in init.params else None
+    if hid is None:
+        raise AnalysisError("FNO.__init__ lost its hidden_channels parameter")
+    npaths = 0
+    for p in paths(init.node, expand_self=False):
+        if p.ret is RAISE:
+            continue
+        gs = {dump(g): pol for g, pol, k in p.guards}
+        up, down, seq = (p.attrs.get(f"self.{a}") for a in ("channel_up_sampling", "channel_down_sampling", "fourier_sequential"))
+        if gs.get("not channel_up_sample_network") and gs.get("not channel_down_sample_network"):
+            npaths += 1
+            okl = dump(up) == f"nn.Linear(self.input_space.dim, {hid}, bias=True)" and dump(down) == f"nn.Linear({hid}, self.output_space.dim, bias=True)"
+            rep.check(R, okl, init.site(), init.fq, "default channel maps are nn.Linear(in, hidden) / nn.Linear(hidden, out)", f"{dump(up)[:80]} / {dump(down)[:80]}", "channel map defaults")
+        if not any(pol and dump(g).startswith("range(") for g, pol, k in p.guards):
+            continue
+        oks = isinstance(seq, ast.Call) and attr_chain(seq.func) in ("nn.Sequential", "torch.nn.Sequential") and len(seq.args) == 1 and isinstance(seq.args[0], ast.Starred) \
+            and isinstance(seq.args[0].value, ast.List) and seq.args[0].value.elts
+        if oks:
+            for el in seq.args[0].value.elts:
+                if isinstance(el, ast.Call) and dump(el.func) == "_FourierLayer":
+                    oks = oks and bool(el.args) and dump(el.args[0]) == hid
+                elif isinstance(el, ast.Subscript) and "activations" in dump(el.value):
+                    pass
+                else:
+                    oks = False
+            oks = oks and any(isinstance(el, ast.Call) and dump(el.func) == "_FourierLayer" for el in seq.args[0].value.elts)
+        rep.check(R, bool(oks), init.site(), init.fq, "the blocks are _FourierLayer(hidden_channels, ...) and point-wise activations in an nn.Sequential", dump(seq)[:160], "blocks")
+    if npaths == 0:
+        rep.undecided(R, init.site(), init.fq, "a constructor path taking both default channel maps", "none found")
     fl = repo.cls(f"{FN}._FourierLayer")
     linit = fl.methods.get("__init__")
-    lsrc = ast.unparse(linit.node).replace(" ", "")
-    rep.check(R, "self.linear_transform=nn.Linear(channels,channels,bias=bias)" in lsrc, linit.site(), linit.fq, "linear connection = nn.Linear(channels, channels) (point-wise)", "changed", "linear connection")
+    nl = 0
+    for p in paths(linit.node, expand_self=False):
+        if p.ret is RAISE:
+            continue
+        lt = p.attrs.get("self.linear_transform")
+        if lt is None:
+            continue
+        nl += 1
+        ch = linit.params[1]
+        rep.check(R, isinstance(lt, ast.Call) and attr_chain(lt.func) in ("nn.Linear", "torch.nn.Linear") and len(lt.args) >= 2 and dump(lt.args[0]) == dump(lt.args[1]) == ch,
+                  linit.site(), linit.fq, "linear connection = nn.Linear(channels, channels) (point-wise)", dump(lt)[:100], "linear connection")
+        break
+    if nl == 0:
+        rep.undecided(R, linit.site(), linit.fq, "self.linear_transform is set on some path", "not found")
     fw = fl.methods.get("forward")
     for p in paths(fw.node):
         if p.ret is RAISE or p.ret is None:
